@@ -169,8 +169,18 @@ def vector_bounds(ctx, report, rule, c, entry):
     ref = entry.get('ref', '')
     if mx != v['ceiling']:
         report.add(rule, c.construct + '@ceiling', 'vector ceiling is %s in the code, %s in %s' % (mx, v['ceiling'], ref))
-    if isinstance(mn, int) and mn > v['floor']:
+    # bodies of fixed size items are multiples of the item size: floors are compared after rounding up to one
+    fixed = None
+    if 'u' in v['item']:
+        fixed = v['item']['u']
+    floor_spec, floor_code = v['floor'], mn
+    if fixed and isinstance(mn, int):
+        floor_spec = -(-v['floor'] // fixed) * fixed
+        floor_code = -(-mn // fixed) * fixed
+    if isinstance(mn, int) and floor_code > floor_spec:
         report.add(rule, c.construct + '@floor', 'vector floor is %s in the code but %s allows %s: a conformant encoding is rejected' % (mn, ref, v['floor']))
+    if isinstance(mn, int) and floor_code < floor_spec:
+        report.add(rule, c.construct + '@floor', 'vector floor is %s in the code but %s demands at least %s: an encoding the protocol forbids is accepted and can be composed' % (mn, ref, v['floor']))
     if isinstance(w, int) and w != prefix_width(v['ceiling']) and not entry.get('no_prefix'):
         report.add(rule, c.construct + '@prefix', 'length prefix is %s byte(s), the ceiling %s needs %s' % (w, v['ceiling'], prefix_width(v['ceiling'])))
     item = v['item']
